@@ -449,6 +449,8 @@ type FuncSpec struct {
 	NoPanic  bool
 	Abort    []*Clause // must hold at every panic exit ("aborts")
 	MayPanic bool
+	Partial  bool // the contract makes no frame claim: no frame obligations, callers havoc the may-write set
+	LockHeld bool // called with the guarding mutex held (lock discipline)
 	Props    []string
 	File     string
 }
@@ -476,7 +478,15 @@ type GlobalSpec struct {
 	Src  string
 }
 
+type GuardSpec struct {
+	Pkg    string
+	Struct string
+	Mutex  string
+	Fields []string
+}
+
 type SpecDB struct {
+	guards       []*GuardSpec
 	globals      []*GlobalSpec
 	funcs        map[string]*FuncSpec // key: pkgpath + "::" + name
 	preds        map[string]*PredSpec // key: name (global, with pkg fallback)
@@ -493,6 +503,7 @@ type specFun struct {
 }
 
 var declFunRe = regexp.MustCompile(`^\(declare-fun\s+(\S+)\s+\((.*)\)\s+(\(.*\)|\S+)\s*\)$`)
+var guardedRe = regexp.MustCompile(`^guarded\s+([A-Za-z_][A-Za-z0-9_]*)\.([A-Za-z_][A-Za-z0-9_]*)\s*:\s*(.*)$`)
 var clauseHead = regexp.MustCompile(`^(requires|ensures|modifies|invariant|decreases|aborts)(\[[A-Za-z0-9_,. ]+\])?\s+(.*)$`)
 var funcHead = regexp.MustCompile(`^func\s+(\S+)\s*$`)
 var predHead = regexp.MustCompile(`^pred\s+([A-Za-z_][A-Za-z0-9_]*)\s*\(([^)]*)\)\s*:=\s*(.*)$`)
@@ -551,7 +562,7 @@ func (db *SpecDB) loadContractFile(path, pkgPath string) error {
 	var items []string
 	isHead := func(t string) bool {
 		return clauseHead.MatchString(t) || strings.HasPrefix(t, "func ") || strings.HasPrefix(t, "pred ") || loopHead.MatchString(t) ||
-			strings.HasPrefix(t, "lemma") || t == "pure" || t == "inline" || t == "assumed" || t == "nopanic" || t == "maypanic" || strings.HasPrefix(t, "props ") || strings.HasPrefix(t, "smt ") || strings.HasPrefix(t, "global ")
+			strings.HasPrefix(t, "lemma") || t == "pure" || t == "inline" || t == "assumed" || t == "nopanic" || t == "maypanic" || t == "lockheld" || t == "partial" || strings.HasPrefix(t, "props ") || strings.HasPrefix(t, "smt ") || strings.HasPrefix(t, "global ") || strings.HasPrefix(t, "guarded ")
 	}
 	for _, l := range lines {
 		t := strings.TrimSpace(l)
@@ -572,6 +583,18 @@ func (db *SpecDB) loadContractFile(path, pkgPath string) error {
 	ord := map[string]int{}
 	for _, it := range items {
 		switch {
+		case strings.HasPrefix(it, "guarded "):
+			// guarded Client.mu: tables, forceFailureErr, ...
+			m := guardedRe.FindStringSubmatch(it)
+			if m == nil {
+				return fmt.Errorf("%s: bad guarded declaration: %s", path, it)
+			}
+			g := &GuardSpec{Pkg: pkgPath, Struct: m[1], Mutex: m[2]}
+			for _, f := range strings.Split(m[3], ",") {
+				g.Fields = append(g.Fields, strings.TrimSpace(f))
+			}
+			db.guards = append(db.guards, g)
+			cur = nil
 		case strings.HasPrefix(it, "global "):
 			n, err := parseSpecExpr(strings.TrimSpace(it[7:]))
 			if err != nil {
@@ -620,7 +643,7 @@ func (db *SpecDB) loadContractFile(path, pkgPath string) error {
 			if cur.Loops[n] == nil {
 				cur.Loops[n] = &LoopSpec{}
 			}
-		case it == "pure" || it == "inline" || it == "assumed" || it == "nopanic" || it == "maypanic":
+		case it == "pure" || it == "inline" || it == "assumed" || it == "nopanic" || it == "maypanic" || it == "lockheld" || it == "partial":
 			if cur == nil {
 				return fmt.Errorf("%s: %s outside func", path, it)
 			}
@@ -635,6 +658,10 @@ func (db *SpecDB) loadContractFile(path, pkgPath string) error {
 				cur.NoPanic = true
 			case "maypanic":
 				cur.MayPanic = true
+			case "lockheld":
+				cur.LockHeld = true
+			case "partial":
+				cur.Partial = true
 			}
 		case strings.HasPrefix(it, "props "):
 			if cur != nil {
